@@ -30,6 +30,19 @@ muts=[
  ('service/tcp.go','\touterConn.SetReadDeadline(readDeadline)\n\n\tid, innerConn, authErr := h.authenticate(outerConn)\n','\tid, innerConn, authErr := h.authenticate(outerConn)\n\touterConn.SetReadDeadline(readDeadline)\n','C06','read deadline armed only after authenticate has read'),
  ('service/tcp.go','if deadline.Before(readDeadline) {','if readDeadline.Before(deadline) {','C06','read deadline is the later of the two'),
  ('service/tcp.go','\ttgtAddr, err := getProxyRequest(innerConn)\n','\touterConn.SetReadDeadline(time.Time{})\n\ttgtAddr, err := getProxyRequest(innerConn)\n','C06','read deadline cleared before the address is read'),
+ ('service/udp.go','if err := h.targetIPValidator(tgtUDPAddr.IP); err != nil {','if err := h.targetIPValidator(tgtUDPAddr.IP); err != nil && len(textData) > 64 {','C04','target IP validator consulted only for large datagrams'),
+ ('service/udp.go','payload := textData[len(tgtAddr):]','payload := textData[len(tgtAddr)-1:]','C04','payload keeps the last byte of the address header'),
+ ('service/udp.go','return nil, nil, onet.NewConnectionError("ERR_RESOLVE_ADDRESS"','return textData, tgtUDPAddr, onet.NewConnectionError("ERR_RESOLVE_ADDRESS"','C16','resolve failure returns the text and the address with the error'),
+ ('service/udp.go','\t\tdelete(m.keyConn, key)\n','\t\t_ = key\n','C04','natmap.del no longer deletes'),
+ ('service/udp.go','\tm.keyConn[key] = entry\n','\tif _, dup := m.keyConn[key]; !dup {\n\t\tm.keyConn[key] = entry\n\t}\n','C04','natmap.set keeps the first association of a client'),
+ ('service/udp.go','\t\tdefaultTimeout: m.timeout,\n','\t\tdefaultTimeout: 0,\n','C04','association created with a zero default timeout'),
+ ('service/tcp.go','if isServerSalt || !replayCache.Add(cipherEntry.ID, clientSalt) {','if !replayCache.Add(cipherEntry.ID, clientSalt) || isServerSalt {','C08','replay cache consulted before the server-salt test'),
+ ('service/tcp.go','\t\t\tif isServerSalt {\n','\t\t\tif !isServerSalt {\n','C07','ERR_REPLAY_SERVER and ERR_REPLAY_CLIENT swapped'),
+ ('service/tcp.go','\t\t\treturn id, nil, onet.NewConnectionError(status, "Replay detected", nil)','\t\t\treturn "", nil, onet.NewConnectionError(status, "Replay detected", nil)','C07','replay verdicts lose the key id'),
+ ('service/tcp.go','\t\tssw.SetSaltGenerator(cipherEntry.SaltGenerator)\n','\t\t_ = ssw\n','C08',"accepted connection's writer not given the entry's salt generator"),
+ ('service/tcp.go','\tsalt := firstBytes[:entry.CryptoKey.SaltSize()]','\tsalt := firstBytes[:entry.CryptoKey.SaltSize()-1]','C01','salt one byte short'),
+ ('service/tcp.go','\tcipherList.MarkUsedByClientIP(elt, clientIP)\n\tsalt :=','\tsalt :=','C01','found entry no longer marked as used'),
+ ('service/tcp.go','\tif entry == nil {\n\t\t// TODO: Ban','\tif entry == nil && len(ciphers) > 1 {\n\t\t// TODO: Ban','C01','search failure ignored for a single-key list (nil entry handed on)'),
 ]
 res=[]
 for i,(f,a,b,prop,what) in enumerate(muts):
